@@ -19,7 +19,7 @@ LEVEL = "model_checking"
 RULE = ("explicit-state search over operation histories (E3): a state is the history that reaches it, rebuilt on a fresh virtual "
         "loop by replaying the real LAN object against the reference V3 device. Events: send answered promptly / device silent / "
         "error packet / peer close / handshake unanswered / connect refused, explicit authenticate with good or unknown credentials, unanswered or with the connect refused, "
-        "clock jump past the 12 h authentication lifetime, clock jumps past (and of 0.6x) the configured connection lifetime, cancellation of a "
+        "clock jump past the 12 h authentication lifetime, clock jumps past (and of 0.6x, and of 24 h + 10 s) the configured connection lifetime, cancellation of a "
         "send and of an explicit authenticate at every interval between loop events. (a) full history tree without de-duplication to depth D1; (b) breadth-first "
         "search with de-duplication on a name-agnostic structural fingerprint of the library objects + device state to depth D2. "
         "A wire monitor (I1 only handshakes with the token before an accepted handshake; I2 data verifies under the session key of "
@@ -38,7 +38,7 @@ WRAPS = tuple(1 << k for k in range(8, 17))
 BASE_EVENTS = [
     ("send", "ok"), ("send", "silent"), ("send", "error"), ("send", "close"), ("send", "hs-silent"), ("send", "refuse"),
     ("auth", "good"), ("auth", "bad"), ("auth", "hs-silent"), ("auth", "refuse"),
-    ("jump", "12h"), ("jump", "life"), ("jump", "part"),
+    ("jump", "12h"), ("jump", "life"), ("jump", "part"), ("jump", "day"),
 ]
 
 
@@ -125,7 +125,8 @@ class Run:
         self.marks.append(mark)
         res = None
         if kind == "jump":
-            w.loop.jump(13 * 3600 if arg == "12h" else LIFETIME + 1 if arg == "life" else LIFETIME * 0.6)
+            # "day": one whole day and a few seconds (a multiple of 24 h plus less than the lifetime)
+            w.loop.jump({"12h": 13 * 3600, "life": LIFETIME + 1, "part": LIFETIME * 0.6, "day": 86400 + 10}[arg])
             mark["outcome"] = "jumped"
             return
         self.cur = arg if arg not in ("ok", "good", "bad", "cancel", "cancel-auth") else None
@@ -249,12 +250,12 @@ def monitor(run: Run):
         if not later:
             continue
         first = later[0]
-        if m["ev"][1] in ("12h", "life") and first.get("ptype") != rc.T_HANDSHAKE_REQ:
+        if m["ev"][1] in ("12h", "life", "day") and first.get("ptype") != rc.T_HANDSHAKE_REQ:
             out.append((f"I4 first packet after jump>{m['ev'][1]} is not a handshake", f"type {first.get('ptype')}"))
-        if m["ev"][1] == "life" and run.life and m["live"] is not None:
+        if m["ev"][1] in ("life", "day") and run.life and m["live"] is not None:
             if any(e["conn"] == m["live"] for e in later):
                 out.append(("I4 packet written on a connection past its lifetime", f"conn {m['live']}"))
-        if m["ev"][1] == "12h":
+        if m["ev"][1] in ("12h", "day"):
             # no data may be written after the authentication lifetime until a new handshake has SUCCEEDED
             # (accepted by the device and its reply delivered, i.e. not lost and not answered with an error)
             for e in later:
@@ -457,7 +458,7 @@ def run_long(st: Stats, n):
         return n, None
 
     try:
-        out = w.run(drive())
+        out = w.run(drive(), budget=7200)
         case = {"long": n}
         if out[0] != "ok":
             st.violation(f"long session: {exc_class(out)} after {len(dev.rx)} packets", case, "no exception", str(out[1])[:200])
